@@ -21,6 +21,7 @@ import (
 	"bytes"
 	"fmt"
 	"go/ast"
+	"go/build"
 	"go/build/constraint"
 	"go/format"
 	"go/importer"
@@ -470,6 +471,17 @@ func recvBase(fd *ast.FuncDecl) (base, self string) {
 	return id.Name, self
 }
 
+// matchFile: is this file part of the package as the go tool builds it here (GOOS, GOARCH,
+// release tags, file name suffixes, //go:build and +build lines; no extra tags, so files
+// guarded by the `verif` tag are left out)?  go/build decides, the same way `go build` does.
+func matchFile(path string) bool {
+	ok, err := build.Default.MatchFile(filepath.Dir(path), filepath.Base(path))
+	if err != nil {
+		die("%s: %v", path, err)
+	}
+	return ok
+}
+
 func main() {
 	args := os.Args[1:]
 	registry := false
@@ -495,7 +507,7 @@ func main() {
 		if err != nil {
 			die("%v", err)
 		}
-		if f.Name.Name != "jen" || !buildTagOK(f) {
+		if f.Name.Name != "jen" || !matchFile(n) {
 			continue
 		}
 		files = append(files, f)
